@@ -72,7 +72,11 @@ func runC10(r *Run) {
 	modName, _ := P.constOf(haqqMod+"/x/erc20/types", "ModuleName")
 	depMsg := func(v ssa.Value, field string) bool {
 		s := backSlice(v)
-		return s.HasField("MsgConvertCoin", field) || s.HasField("MsgConvertERC20", field)
+		if !(s.HasField("MsgConvertCoin", field) || s.HasField("MsgConvertERC20", field)) {
+			return false
+		}
+		// the quantity is the message's, unchanged: no arithmetic and no other quantity (balance, EVM result) flows in
+		return !s.Any(func(y ssa.Value) bool { c, isCall := y.(*ssa.Call); return isCall && quantityChangingCall(callInfo(c)) })
 	}
 	bankEv := func(name string, modArg int, amtArg int, field string) evSpec {
 		return evSpec{name, func(ci CallInfo) bool {
